@@ -81,6 +81,9 @@ func (a *acc) diffParse(b []byte) {
 		a.more++
 		if ok || err != nil {
 			a.fail("parse-needmore", "input %x is a proper prefix of a frame but ParseFrame returned ok=%v err=%v", trunc(b), ok, err)
+		} else if len(rem) != len(b) || (len(b) > 0 && &rem[0] != &b[0]) {
+			// the caller reads more bytes behind what it has and parses again from the same place
+			a.fail("parse-needmore-consumed-input", "input %x is a proper prefix of a frame; ParseFrame asks for more data but hands back %d of the %d bytes (%x)", trunc(b), len(rem), len(b), trunc(rem))
 		}
 	case refwire.Bad:
 		a.bad++
